@@ -264,7 +264,68 @@ def rule_janus_grid_roundtrip(ctx):
     ctx.covered('R10.8', 'JANUS grid conversions: to_int after to_double is the identity on grid indices (symbolic, per member)', n, floor=6)
 
 
+def rule_stale_copies(ctx, rule='R10.10'):
+    """R10.10: a local that is a by-value copy of a member struct of the simulation (const struct reb_integrator_sei ri_sei
+    = r->ri_sei) is a snapshot. If a function that writes that member (its direct assignments, any translation unit) is
+    called between the copy and a later use of the local, the use sees the old values: SEI would rotate with the
+    sin/tan constants of the previous step size for the first half step after dt changed - or changed sign."""
+    from . import c04
+    tus = cfront.load_tus()
+    writes = {}
+    defs = {}
+    for c, tu in tus.items():
+        for fname, f_ in tu.funcs.items():
+            b = cfront.body(f_)
+            if b is None or fname in defs:
+                continue
+            defs[fname] = f_
+            w = set()
+            for e in walk(b):
+                if is_assign(e):
+                    p_ = c04._access_path(e['inner'][0])
+                    if p_:
+                        w.add(p_)
+            writes[fname] = w
+    n = 0
+    samples = []
+    for c, tu in sorted(tus.items()):
+        for fname, fn in sorted(tu.funcs.items()):
+            b = cfront.body(fn)
+            if b is None or cfront.basename(fn.get('_locfile') or fn.get('_file')) != c:
+                continue
+            copies = {}
+            for d in walk(b):
+                if d.get('kind') == 'VarDecl' and 'init' in d and 'struct' in qtype(d) and '*' not in qtype(d):
+                    init = [x for x in d.get('inner', []) if x.get('kind') not in ('FullComment',)]
+                    if not init:
+                        continue
+                    src = c04._access_path(init[-1])
+                    if src and src.count('.') == 1 and strip(init[-1], casts=True).get('kind') == 'MemberExpr':
+                        copies[d['name']] = (src, line_of(d), d.get('id'))
+            if not copies:
+                continue
+            calls = [(line_of(e), callee_name(e)) for e in walk(b) if e.get('kind') == 'CallExpr' and callee_name(e) in writes]
+            uses = {}
+            for e in walk(b):
+                if e.get('kind') == 'DeclRefExpr' and e['referencedDecl']['name'] in copies and e['referencedDecl'].get('id') == copies[e['referencedDecl']['name']][2]:
+                    uses.setdefault(e['referencedDecl']['name'], []).append(line_of(e))
+            for nm, (src, dl, _) in sorted(copies.items()):
+                n += 1
+                for cl, cal in calls:
+                    if cl <= dl:
+                        continue
+                    hit = [w for w in writes[cal] if w == src or w.startswith(src + '.')]
+                    later = [u for u in uses.get(nm, []) if u > cl]
+                    if hit and later:
+                        ctx.report(rule, '%s:stale:%s' % (fname, nm), 'src/%s:%s %s' % (c, later[0], fname),
+                                   'the local %s is a copy of %s taken at line %s; %s (called at line %s) assigns %s afterwards, and the copy is still used at line %s: it carries the values from before the call' % (nm, src, dl, cal, cl, sorted(hit)[0], later[0]))
+                        break
+                samples.append('src/%s %s: %s = copy of %s' % (c, fname, nm, src))
+    ctx.covered(rule, 'by-value copies of member structs of the simulation are not used after a call that assigns the member', n, floor=3, samples=samples[:6])
+
+
 def run(ctx):
+    rule_stale_copies(ctx)
     rule_janus_grid_roundtrip(ctx)
     from . import serial
     serial.rule_scratch_reset(ctx, 'R10.9')   # a force evaluation is a function of the positions alone (bit-wise reversibility needs F(x) to be reproducible)
